@@ -205,6 +205,7 @@ struct Options {
     std::string replay;
     bool        verbose = false;
     bool        print_plan = false;
+    bool        survey = false;     // development aid: count every violation key of every property, never stop, never shrink
     std::uint64_t index = 0;
     std::vector< Known > known;
     std::string self;
@@ -484,7 +485,14 @@ struct WorkerCounters {
             if ( const Known* k = find_known( o, v.property, v.key ) )
                 if ( seen_known.insert( k->key ).second ) cnt.known[ k->key ]++;
         }
-        if ( const Violation* v = first_unknown( o, r, o.property ) )
+        if ( o.survey )
+        {
+            std::set< std::string > once;
+            for ( const auto& v : r.violations )
+                if ( once.insert( v.property + "|" + v.rule + "|" + v.key ).second )
+                    fprintf( out, "Y %s|%s|%s|%llu\n", v.property.c_str(), v.rule.c_str(), sanitize_line( v.key ).c_str(), (unsigned long long)i );
+        }
+        else if ( const Violation* v = first_unknown( o, r, o.property ) )
         {
             const std::string rule = v->rule;
             // gate 1: same plan, same process, same trace and same rule
@@ -639,6 +647,7 @@ int sim_main( int argc, char** argv, const Harness& h )
         else if ( a == "--replay" ) o.replay = val();
         else if ( a == "--verbose" ) o.verbose = true;
         else if ( a == "--print-plan" ) o.print_plan = true;
+        else if ( a == "--survey" ) o.survey = true;
         else if ( a == "--index" ) o.index = std::strtoull( val().c_str(), nullptr, 10 );
         else if ( a == "--known" )
         {
@@ -708,6 +717,7 @@ int sim_main( int argc, char** argv, const Harness& h )
     std::vector< std::uint64_t > sample_indices;
     std::map< std::string, std::uint64_t > faults, probes, known_seen, cross;
     std::uint64_t sim_time_us = 0, steps = 0;
+    std::map< std::string, std::pair< std::uint64_t, std::uint64_t > > survey;    // key -> (count, first run index)
     struct Found { std::uint64_t index; std::string rule, key, path, detail; };
     std::vector< Found > found;
     std::vector< std::uint64_t > crashed_runs;
@@ -761,6 +771,11 @@ int sim_main( int argc, char** argv, const Harness& h )
             }
             parts.push_back( pos <= rest.size() ? rest.substr( pos ) : "" );
             found.push_back( Found{ std::strtoull( parts[ 0 ].c_str(), nullptr, 10 ), parts[ 1 ], parts[ 2 ], parts[ 3 ], parts[ 4 ] } );
+            break; }
+        case 'Y': {
+            auto bar = line.rfind( '|' );
+            auto& e = survey[ line.substr( 2, bar - 2 ) ];
+            if ( e.first++ == 0 ) e.second = std::strtoull( line.c_str() + bar + 1, nullptr, 10 );
             break; }
         case 'D': s.done = true; break;
         default: break;
@@ -825,6 +840,15 @@ int sim_main( int argc, char** argv, const Harness& h )
 
     if ( fatal ) exit_code = 2;
 
+    if ( o.survey )
+    {
+        printf( "survey: %llu runs, %zu runs aborted (indices:", (unsigned long long)evaluations, crashed_runs.size() );
+        for ( auto i : crashed_runs ) printf( " %llu", (unsigned long long)i );
+        printf( ")\n" );
+        for ( const auto& e : survey )
+            printf( "  %8llu  %s   (first: --index %llu)\n", (unsigned long long)e.second.first, e.first.c_str(), (unsigned long long)e.second.second );
+        return 0;
+    }
     // ---- crashed runs: classify in a fresh process
     const bool memsafe = h.memory_safety_property( o.property );
     std::uint64_t confirmed_crashes = 0;
